@@ -1,15 +1,20 @@
 ENTRY = dict(
-    runner="C10", pkg="./cmd/c10", corr=["Corr.C10Corr"], n=dict(quick=900, thorough=9000), runner_timeout=2400,
+    runner="C10", pkg="./cmd/c10", corr=["Corr.C10Corr"], n=dict(quick=1350, thorough=16000), runner_timeout=2400,
     rule="spec classes: the 38 predefined parrots, reproducible randomized fingerprints (10 quick / 200 thorough), fingerprinted copies "
-         "(Fingerprinter on the class's own ClientHello, re-applied as HelloCustom; every 5th class quick, all parrots + every 4th randomized "
-         "thorough), three custom specs (five shares, hybrid-only, P-384 only). Per class one honest probe handshake, then one loopback-TCP "
-         "handshake + application-data echo per server configuration derived from the class's own wire hello: MaxVersion 1.2 / 1.3; each "
-         "offered group of {X25519,P-256,P-384,P-521,X25519MLKEM768} alone in CurvePreferences (share present: direct; absent: "
-         "HelloRetryRequest); each offered TLS 1.3 suite; each offered implemented TLS 1.2 suite alone; ALPN h2 / http/1.1 / none; ECDSA / "
-         "RSA / Ed25519 leaf alone at 1.3 and 1.2; each advertised certificate-compression algorithm; *_PSK parrots: resumption attempt "
-         "answered by a HelloRetryRequest. Quick: all group choices of parrots and custom specs and the excluded classes, the other "
-         "configurations rotate with the seed (1 in 4); thorough: full product. A configuration the server itself rejects (no common suite / "
-         "signature algorithm) is counted, not a case. Distinct by (kind, class, choice); non-trivial unless the plain 1.3 / first-share run.",
+         "(Fingerprinter on the class's own ClientHello, re-applied as HelloCustom) of every parrot and of a rotating quarter of the randomized "
+         "ones, three custom specs (five shares, hybrid-only, P-384 only; TLSVersMin 1.0). Per class one honest probe handshake, then one "
+         "loopback-TCP handshake per server configuration derived from the class's own WIRE hello: each advertised version as the server's "
+         "maximum (TLS 1.0/1.1/1.2/1.3); each offered group of {X25519,P-256,P-384,P-521,X25519MLKEM768} alone in CurvePreferences - a share "
+         "the hello sent (direct), or a HelloRetryRequest, the HRR groups crossed with every offered TLS 1.3 suite; each offered TLS 1.3 suite; "
+         "each offered implemented legacy suite alone at each advertised version <= 1.2 (families AEAD / CBC / RC4); each protocol of the wire "
+         "ALPN list alone and none, under client Configs with NextProtos unset / preset to a disjoint list / preset to an overlapping list / a "
+         "*Config shared with an earlier UConn of a parrot whose ALPN list differs; ECDSA / RSA / Ed25519 leaf alone when signature_algorithms "
+         "offers a usable scheme; each advertised certificate-compression algorithm; *_PSK parrots: resumption attempt answered by a "
+         "HelloRetryRequest. After every completed handshake the client Writes 1, 2, 17, 16384 and 20000 bytes (each (n, err) recorded, CWrite "
+         "per distinct (version, suite family, size)), the server echoes all of it. Quick: always every version, every share selection, per "
+         "TLS 1.3 suite one HRR group, one suite per (version, family), one ALPN pick per Config variant, the excluded classes; the rest 1 in 6 "
+         "(parrots, custom) / 1 in 14 (randomized, fingerprinted), rotating with the seed; thorough: full product. A configuration the server "
+         "itself rejects is counted, not a case. Distinct by (kind, class, choice); non-trivial unless the plain 1.3 / first-share run.",
     trusted_base=["verif_server.go scripted server (library's own server sub-steps; honest except for the HelloRetryRequest group / TLS 1.3 suite / "
                   "certificate compression it is told to select from the offered sets) and verif_c12.go view accessors",
                   "harness/hs ClientHello wire parser", "Go crypto/x509 against a throw-away CA (ECDSA, RSA, Ed25519 leaves)",
